@@ -22,7 +22,10 @@ def run_native(prop, src_text, args=(), cxxflags="-O1 -std=c++11", timeout=600, 
         cc = open(os.path.join(wd, "cc.log")).read()[-1500:]
     except OSError:
         pass
-    return {"reproduced": rc == 1 and "REPRODUCED" in out, "rc": rc, "output": out, "compile_log": cc if rc not in (0, 1) else "",
+    crashed = rc in (132, 134, 136, 139, -4, -6, -8, -11) and os.path.exists(os.path.join(wd, name)) and "error" not in cc
+    if crashed:
+        out += "\nREPRODUCED: the real code crashed on the replay family (signal %d)" % (rc - 128 if rc > 0 else -rc)
+    return {"reproduced": (rc == 1 and "REPRODUCED" in out) or crashed, "rc": rc, "output": out, "compile_log": cc if rc not in (0, 1) else "",
             "program": src_text, "cxxflags": cxxflags, "args": list(args)}
 
 
